@@ -220,6 +220,7 @@ class Machine:
         self.inputs = {}      # name -> Sym (symbolic mode) for model extraction
         self.vfs = {}
         self.timer = None     # modelled ThreadTimer state
+        self.stop_countdown = -1
         self.depth = 0
         self.max_depth = 3000
         self._resolve_cache = {}
@@ -446,6 +447,7 @@ class Machine:
         self.statics = {}
         self.inputs = {}
         self.timer = None
+        self.stop_countdown = -1
         self.concrete_inputs = concrete_inputs
         if concrete_inputs is not None:
             # concrete re-run: only structural decisions are replayed
@@ -519,6 +521,13 @@ class Machine:
                 return kind[1](self, func, args)
             func = kind[1]
         self.covered[func.name] = self.covered.get(func.name, 0) + 1
+        if func.name == 'time_out::query_stopped' and self.stop_countdown >= 0:
+            # modelled timer thread: it may set the flag between any two observations of it
+            if self.stop_countdown == 0:
+                self.stop_countdown = -1
+                self.call('time_out::stop_query', [])
+            else:
+                self.stop_countdown -= 1
         self.depth += 1
         if self.depth > self.max_depth:
             raise StepLimit('call depth')
